@@ -369,9 +369,9 @@ Theorem resume_step_bound : forall a s r tmo x',
 Proof.
   intros a s r tmo x' Hpost H.
   assert (H0 : totx (resume_x0 s) = tot s) by reflexivity.
-  destruct (resume_decompose _ _ _ _ _ Hpost H) as [(y & wi & c & E & _ & _ & _ & _ & Hy)|(x2 & l & E & HL & Hs & _ & _ & wi & pos & e & op & _ & _ & _ & Hfre)].
+  destruct (resume_decompose _ _ _ _ _ Hpost H) as [(y & wi & c & E & _ & _ & _ & _ & Hy)|(x2 & l & E & HL & Hs & _ & _ & wi & pos & e & op & _ & _ & _ & Hfre & _)].
   - inversion E; subst. change (tot (session_ (fail_session y wi c))) with (totx (fail_session y wi c)).
-    rewrite fail_session_tot. destruct Hy as [->|(pos & ->)]; [simpl; unfold totx; simpl; lia|].
+    rewrite fail_session_tot. destruct Hy as [->|(pos & n0 & _ & ->)]; [simpl; unfold totx; simpl; lia|].
     rewrite apply_resume_tot, H0. lia.
   - pose proof (find_resume_exit_tot a (apply_resume (resume_x0 s) wi (Some (wi, pos)) r) wi (is_timeout r) tmo) as Ht.
     rewrite Hfre in Ht. rewrite apply_resume_tot, H0 in Ht.
